@@ -1,10 +1,10 @@
 SPECIFICATION Spec
 CONSTANTS
   Scenario = "stream"
-  N = 2
+  N = 3
   Cap = 16
   Kinds <- KindsNone
-  Script <- ScriptNone
+  Script <- ScriptHOH
   GenK = 1
 VIEW View
 INVARIANT Inv_NoLostWake
